@@ -1,7 +1,8 @@
 // Package renderdiff: T-diff of the error renderer errors/document.go (DocumentError.Line,
 // SourceSubString and the caret line of Error()) against the Lean model JSight/Render.lean (driver
 // request `rend <hex content> <idx>` -> `line|hex(text)|number of dashes before the caret`, or CRASH
-// where the Go code would index out of range).
+// where the Go code would index out of range). reuse.go adds the API-sequence stream: one error value moved
+// with SetIndex / SetFile between renderings.
 package renderdiff
 
 import (
@@ -172,8 +173,8 @@ func randomFile(r *rand.Rand) []byte {
 func Run(args []string) {
 	maxLen := vh.Pick(6, 7)
 	nFiles, perFile := vh.Pick(4000, 60000), 12
-	rep := vh.NewReport("render-diff", fmt.Sprintf("errors/document.go vs model: line number, source text and caret offset (and Error() = composition of the three) for ALL contents of length <=%d over {a, space, tab, LF, CR} x every position inside the content (plus the position just behind it, where both sides must crash), and %d random files up to 600 bytes (4 new-line conventions or mixed, lines from 3 to >400 bytes to reach the 200-byte truncation, leading blanks) x %d positions (random, line starts/ends, inside leading blanks, last byte); nontrivial = content with a new-line byte and a non-blank byte, or longer than 200 bytes",
-		maxLen, nFiles, perFile))
+	rep := vh.NewReport("render-diff", fmt.Sprintf("errors/document.go vs model: line number, source text and caret offset (and Error() = composition of the three) for ALL contents of length <=%d over {a, space, tab, LF, CR} x every position inside the content (plus the position just behind it, where both sides must crash), and %d random files up to 600 bytes (4 new-line conventions or mixed, lines from 3 to >400 bytes to reach the 200-byte truncation, leading blanks) x %d positions (random, line starts/ends, inside leading blanks, last byte); nontrivial = content with a new-line byte and a non-blank byte, or longer than 200 bytes; reuse: %d walks of ONE error value through SetIndex / SetFile / Line / SourceSubString / Error / String calls (forwards, backwards, random jumps, hops around new-line bytes, far-near zigzag; 1-3 files of LF / CR / CRLF / mixed convention and different names incl. the empty one), every observation compared with a fresh value at the same file and position and with the model; nontrivial walk = multi-line file and at least 2 observations",
+		maxLen, nFiles, perFile, vh.Pick(1500, 40000)))
 	r := vh.NewRand(26)
 	x := &runner{rep: rep}
 	for _, s := range []string{"a", "ab\ncd", "  ab\n\tcd", "a\r\nb\r\nc", "\n[", "a\rb", "a\n\rb", " \n \n a"} { // a few readable cases first
@@ -215,5 +216,6 @@ func Run(args []string) {
 		}
 	}
 	x.flush()
+	runReuse(rep, vh.NewRand(27))
 	rep.Finish()
 }
